@@ -42,6 +42,11 @@ func (t c13Template) substitute(args []string) string {
 }
 
 func c13Expand(src string) (printed string, out string, errs []string) {
+	defer func() {
+		if r := recover(); r != nil {
+			errs = append(errs, fmt.Sprintf("panic while expanding / evaluating: %v", r))
+		}
+	}()
 	s := eval.NewState()
 	o := &strings.Builder{}
 	s.Out = o
@@ -123,6 +128,9 @@ func TestVerifBoundedMacros(t *testing.T) {
 		{[]string{"X"}, "$0 + 1"},                  // constant-style parameter names
 		{[]string{"A", "COND"}, "if $1 { $0 } else { -$0 }"},
 		{[]string{"x"}, "$0 * 2"},                  // parameter named like a global of the program
+		{[]string{"a"}, "quote($0)"},               // a quote inside the template: its unquote is substituted too
+		{[]string{"a", "b"}, "[quote($0 + 1), $1]"},
+		{[]string{"a"}, "quote(quote($0))"},
 	}
 	argsPool := []string{"1", "x", "1 + 2", "x - 1", "2 * 3", "f(2)", "x == 1 || x > 2", "-x", "g(x) + 1", "[1,2][0]", "error(\"boom\")", "catch(error(\"c\")).err"}
 	prelude := "x = 3\nfunc f(n) { println(\"f called\", n); n * 10 }\nfunc g(n) { n + 100 }\n"
